@@ -1186,6 +1186,14 @@ func (fr *Frame) instr(in ssa.Instruction) {
 		name := fr.cellName(s)
 		fr.x.compSort(name, sortOf(el))
 		fr.cur.set(name, zeroOf(el))
+		// the address of the cell as a value (only meaningful for unsafe tricks, which are abstracted)
+		av := c.fresh("cellptr", sortOf(s.Type()))
+		if sortOf(s.Type()) == "Ptr" {
+			c.fact(not(eq(av, "nilptr")))
+		} else {
+			c.fact(lt("0", av))
+		}
+		fr.env[s] = av
 	case *ssa.Store:
 		a := fr.addrOf(s.Addr)
 		fr.nilCheckAddr(s.Addr, in)
@@ -1354,6 +1362,9 @@ func (fr *Frame) instr(in ssa.Instruction) {
 		}
 	case *ssa.Send:
 		c.note("channel send abstracted in " + fr.fn.Name())
+		if fr.top && fr.contract != nil {
+			fr.ghostAtSend(s)
+		}
 	case *ssa.Select:
 		c.note("select abstracted in " + fr.fn.Name())
 		var res []Term
@@ -2276,6 +2287,9 @@ func (fr *Frame) initGhosts() {
 				if c, ok := in.(*ssa.Call); ok && strings.HasSuffix(calleeName(c.Common()), ac.Callee) {
 					found++
 				}
+				if _, ok := in.(*ssa.Send); ok && ac.Callee == "chansend" {
+					found++
+				}
 			}
 		}
 		if found <= ac.N && !ac.Optional {
@@ -2402,5 +2416,32 @@ func (fr *Frame) hintsAtCall(call *ssa.Call) {
 		for _, cj := range splitConj(ac.Expr) {
 			fr.proveSpecEnv("hint", fmt.Sprintf("proof hint before call %s#%d: %s", ac.Callee, ac.N, cj.String()), cl, cj, se)
 		}
+	}
+}
+
+// ghostAtSend: ghost updates anchored at the n-th channel send of the function ("at call chansend#n ghost ...")
+func (fr *Frame) ghostAtSend(snd *ssa.Send) {
+	n := 0
+	for _, b := range fr.fn.Blocks {
+		for _, in := range b.Instrs {
+			if x, ok := in.(*ssa.Send); ok {
+				if x == snd {
+					goto found
+				}
+				n++
+			}
+		}
+	}
+	return
+found:
+	for _, ac := range fr.contract.AtCalls {
+		if ac.Hint || ac.AtReturn || ac.Callee != "chansend" || ac.N != n {
+			continue
+		}
+		vars := map[string]sval{"a0": {t: fr.val(snd.Chan), typ: snd.Chan.Type(), sort: "Int"}}
+		se := fr.specEnvFor(fr.cur, fr.entry, fr.mergeVars(vars), true)
+		se.bound["a0"] = true
+		v := se.eval(ac.Expr)
+		fr.assignGhost(ac, se, v)
 	}
 }
